@@ -410,6 +410,9 @@ Section DijkstraWF.
     (forall a b, R1 a b -> R2 a b) -> forall l l', Forall2 R1 l l' -> Forall2 R2 l l'.
   Proof. intros H l l' F. induction F; constructor; auto. Qed.
 
+  Lemma Forall2_len {X Y} (R : X -> Y -> Prop) l l' : Forall2 R l l' -> length l = length l'.
+  Proof. intros F. induction F; cbn; congruence. Qed.
+
   Lemma Forall2_in_l {X Y} (R : X -> Y -> Prop) l l' x :
     Forall2 R l l' -> In x l -> exists y, In y l' /\ R x y.
   Proof.
@@ -495,6 +498,70 @@ Section DijkstraWF.
       split; [rewrite <- (name_name_at g k W); exact Hx|]. split; [apply (tr_info_names g i i' W); exact Htr | exact Hlk].
     - intros x i' Hlk. destruct (A2 x i' Hlk) as [k [i [Hin [Hx Htr]]]]. exists k, i.
       split; [exact Hin|]. split; [rewrite <- (name_name_at g k W); exact Hx | apply (tr_info_names g i i' W); exact Htr].
+  Qed.
+
+  (* ---- the same, read entirely on node names and the edge store ---- *)
+  Lemma a_is_dist_unique (arc : nat -> nat -> Z -> Prop) n s t a b :
+    a_is_dist arc n s t a -> a_is_dist arc n s t b -> a = b.
+  Proof. intros [[p Hp] Ha] [[q Hq] Hb]. pose proof (Ha _ _ Hq). pose proof (Hb _ _ Hp). lia. Qed.
+
+  Lemma name_at_inj (g : gstate) i j x : WF g -> name_at g i = Some x -> name_at g j = Some x -> i = j.
+  Proof.
+    intros W Hi Hj. pose proof (wf_nodup _ _ _ W) as Hnd. rewrite NoDup_nth_error in Hnd.
+    unfold WFDefs.name_at in *. apply Hnd; [apply nth_error_Some; congruence | congruence].
+  Qed.
+
+  Theorem wf_single_source_answer (g : gstate) weighted source target cutoff fo wp si :
+    WF g -> small_adj g -> (weighted = true -> weights_nonneg g) ->
+    name_at g si = Some source ->
+    (forall t, target = Some t -> In t (names g)) ->
+    cutoff_exceeded cutoff 0 = false ->
+    exists m,
+      single_source teqb g weighted source target cutoff fo wp = Ok m /\
+      (* every reported name is a node, reported with its exact distance and shortest paths *)
+      (forall y info, lookup teqb y m = Some info ->
+         exists j, name_at g j = Some y /\
+           a_is_dist (edge_arc g weighted) (n_of g) si j (sp_distance info) /\
+           within cutoff (sp_distance info) /\
+           (wp = false -> sp_paths info = []) /\
+           (forall p', In p' (sp_paths info) ->
+              exists p, names_of g p p' /\ a_SP (edge_arc g weighted) (n_of g) si j p) /\
+           (wp = true -> fo = true -> length (sp_paths info) = 1%nat) /\
+           (wp = true -> fo = false -> a_positive (edge_arc g weighted) ->
+              forall p, a_SP (edge_arc g weighted) (n_of g) si j p ->
+                        exists p', In p' (sp_paths info) /\ names_of g p p')) /\
+      (* every node within the cutoff (the target, when one is given) is reported *)
+      (forall j y d, name_at g j = Some y ->
+         a_is_dist (edge_arc g weighted) (n_of g) si j d -> within cutoff d ->
+         (target = None \/ target = Some y) ->
+         exists info, lookup teqb y m = Some info /\ sp_distance info = d).
+  Proof.
+    intros W Hs Hw Hsrc Ht Hc.
+    destruct (wf_single_source g weighted source target cutoff fo wp si W Hs Hw Hsrc Ht Hc)
+      as [m [ti [r [Hm [Hti [[Hnd [Hent Hrep]] [A1 A2]]]]]]].
+    exists m. split; [exact Hm|]. split.
+    - intros y info Hl. destruct (A2 y info Hl) as [k [i [Hin [Hk [Hdist Hpaths]]]]]. exists k. split; [exact Hk|].
+      assert (Hin' : In (k, (sp_distance i, sp_paths i)) (answer_of r)).
+      { unfold answer_of. apply in_map_iff. exists (k, i). auto. }
+      specialize (Hent _ Hin'). cbn in Hent. destruct Hent as [Hd [Hwi [Hnp Hwp]]].
+      rewrite Hdist. split; [exact Hd|]. split; [exact Hwi|]. split; [|split; [|split]].
+      + intros Ewp. rewrite (Hnp Ewp) in Hpaths. inversion Hpaths. reflexivity.
+      + intros p' Hp'. destruct (Forall2_in_r _ _ _ _ Hpaths Hp') as [p [Hp Hnames]]. exists p. split; [exact Hnames|].
+        destruct wp; [|rewrite (Hnp eq_refl) in Hp; destruct Hp]. destruct (Hwp eq_refl) as [Hsp _]. apply Hsp. exact Hp.
+      + intros Ewp Efo. destruct (Hwp Ewp) as [_ [Hone _]]. rewrite <- (Forall2_len _ _ _ Hpaths). apply Hone. exact Efo.
+      + intros Ewp Efo Hpos p Hp. destruct (Hwp Ewp) as [_ [_ Hall]]. destruct (Hall Efo Hpos) as [_ Hcomp].
+        destruct (Forall2_in_l _ _ _ _ Hpaths (Hcomp p Hp)) as [p' [Hp' Hnames]]. exists p'. auto.
+    - intros j y d Hj Hd Hwi Htgt.
+      assert (Hkey : In j (map fst (answer_of r))).
+      { destruct Htgt as [-> | ->].
+        - subst ti. eapply Hrep; eauto.
+        - destruct Hti as [i0 [Hi0 ->]]. assert (i0 = j) by (eapply name_at_inj; eauto). subst i0. eapply Hrep; eauto. }
+      rewrite answer_of_keys in Hkey. apply in_map_iff in Hkey. destruct Hkey as [[j' i] [E Hin]]. cbn in E. subst j'.
+      destruct (A1 j i Hin) as [x [i' [Hx [[Hdist _] Hl]]]]. assert (x = y) by congruence. subst x.
+      exists i'. split; [exact Hl|]. rewrite Hdist.
+      assert (Hin' : In (j, (sp_distance i, sp_paths i)) (answer_of r)).
+      { unfold answer_of. apply in_map_iff. exists (j, i). auto. }
+      specialize (Hent _ Hin'). cbn in Hent. destruct Hent as [Hd' _]. eapply a_is_dist_unique; eauto.
   Qed.
 
   (* ---- collection into a map keyed by source name ---- *)
